@@ -9,6 +9,7 @@ import (
 	"sort"
 	"sync"
 	"testing"
+	"time"
 
 	"github.com/alicebob/miniredis/v2"
 	red "github.com/go-redis/redis/v8"
@@ -152,8 +153,14 @@ func c12BrkInterp(t *testing.T, c c12BrkCase) (v kit.Verdict) {
 		if op == nil {
 			return v.Failf("unknown op %q", name)
 		}
+		t0 := time.Now()
 		got, want := op(r)
 		cls[name] = true
+		if time.Since(t0) > c12Stall {
+			cls["env:stalled-step"] = true
+			v.Excluded = true
+			return v
+		}
 		if got == breaker.ErrServiceUnavailable {
 			return v.Failf("call %d (%s) after %d redis.Nil / cancelled calls: breaker rejected with ErrServiceUnavailable", i, name, i)
 		}
@@ -206,4 +213,46 @@ func TestVerif_C12_breaker(t *testing.T) {
 	c12Dead(t)
 	kit.Run(t, "C12", "breaker", kit.Opts{Quick: 6, Thorough: 96}, c12BrkGen,
 		func(c c12BrkCase) kit.Verdict { return c12BrkInterp(t, c) })
+}
+
+// ---------------------------------------------------------------- blocking pop on an empty list (thorough tier)
+
+type c12BlockCase struct {
+	X    bool   `json:"x"`
+	Form string `json:"form"` // BLPopWithTimeout | BLPopEx(5 s default is too slow: only WithTimeout is run)
+	Key  string `json:"k"`
+}
+
+// An empty list makes BLPOP wait for its timeout in REAL time (1 s) and then answer
+// nil: the wrapper must hand go-redis' redis.Nil through, as raw go-redis does.
+func c12BlockInterp(t *testing.T, c c12BlockCase) (v kit.Verdict) {
+	tw := c12Setup(t)
+	tw.mA.FlushAll()
+	tw.mB.FlushAll()
+	r := New(tw.mA.Addr())
+	var got string
+	var gerr error
+	if c.X {
+		got, gerr = r.BLPopWithTimeoutCtx(context.Background(), tw.blockA, time.Second, c.Key)
+	} else {
+		got, gerr = r.BLPopWithTimeout(tw.blockA, time.Second, c.Key)
+	}
+	_, werr := tw.rawB.BLPop(context.Background(), time.Second, c.Key).Result()
+	if c12ErrStr(gerr) != c12ErrStr(werr) || got != "" {
+		return v.Failf("BLPopWithTimeout on an empty list: wrapper (%q, %q), go-redis error %q", got, c12ErrStr(gerr), c12ErrStr(werr))
+	}
+	v.NonTrivial = gerr == red.Nil
+	return v
+}
+
+func TestVerif_C12_blpop_empty(t *testing.T) {
+	if !kit.Thorough() {
+		t.Skip("real-time sleeps: thorough tier only")
+	}
+	c12Setup(t)
+	kit.Run(t, "C12", "blpop-empty", kit.Opts{Quick: 1, Thorough: 2, NoShard: true},
+		func(rt *rapid.T) c12BlockCase {
+			return c12BlockCase{X: rapid.Bool().Draw(rt, "x"), Form: "BLPopWithTimeout", Key: rapid.SampledFrom([]string{"l:1", "l:2"}).Draw(rt, "k")}
+		},
+		func(c c12BlockCase) kit.Verdict { return c12BlockInterp(t, c) })
 }
